@@ -43,11 +43,11 @@ def decorate(tb, rng, sep):
         for c in model.constituents(s["root"])[1:]:
             if rng.random() < 0.6:
                 c[0] = c[0] + sep + rng.choice(GFS)
-            if sep == "-":
-                if rng.random() < 0.2:
-                    c[0] += "=%d" % rng.randint(1, 3)
-                if rng.random() < 0.3:
-                    c[0] += "-%d" % rng.randint(1, 9)
+            # gap and co-indices keep their own separators whatever the function separator
+            if rng.random() < 0.2:
+                c[0] += "=%d" % rng.randint(1, 3)
+            if rng.random() < 0.3:
+                c[0] += "-%d" % rng.randint(1, 9)
         for t in s["tokens"]:
             if rng.random() < 0.3 and t[1].isalpha():
                 t[1] = t[1] + sep + rng.choice(GFS)
@@ -137,6 +137,45 @@ def gen_file(rng, tier, i, mode):
     return d
 
 
+def vary_opts(rng, f):
+    """Other reader options for a second reader of the same file."""
+    o = dict(f["opts"])
+    fmt = f["fmt"]
+    for _ in range(rng.choice([1, 1, 2])):
+        what = rng.choice(["gf_split", "gf_separator", "replace_parens", "quiet", "numbering"])
+        if what == "gf_split" and "brackets_emptypos" not in o:
+            if "gf_split" in o:
+                del o["gf_split"]
+                o.pop("gf_separator", None)
+            else:
+                o["gf_split"] = True
+        elif what == "gf_separator" and "brackets_emptypos" not in o:
+            o["gf_split"] = True
+            if o.get("gf_separator") == "#":
+                del o["gf_separator"]
+            else:
+                o["gf_separator"] = "#"
+        elif what == "replace_parens":
+            if "replace_parens" in o:
+                del o["replace_parens"]
+            else:
+                o["replace_parens"] = True
+        elif what == "quiet":
+            if "quiet" in o:
+                del o["quiet"]
+            else:
+                o["quiet"] = True
+        elif what == "numbering":
+            if fmt in ("export", "tigerxml"):
+                if "continuous" in o:
+                    del o["continuous"]
+                else:
+                    o["continuous"] = True
+            elif fmt == "brackets":
+                o["brackets_firstid"] = rng.choice([0, 3, 50])
+    return o
+
+
 def generate(seed, tier):
     rng = random.Random(seed)
     mode = "clean" if rng.random() < 0.65 else "damage"
@@ -148,6 +187,10 @@ def generate(seed, tier):
     readers = [{"file": i} for i in range(nfiles)]
     if nfiles < 3 and rng.random() < 0.3:
         readers.append({"file": rng.randrange(nfiles)})      # two readers of one file
+        if mode == "clean" and rng.random() < 0.6:
+            # ... the second one with other options: what one reader is told must not reach
+            # another reader of the same lines in the same process
+            readers[-1]["opts"] = vary_opts(rng, files[readers[-1]["file"]])
     nsteps = sum(len(files[r["file"]]["tb"]) + 2 for r in readers)
     sc = {"mode": mode, "files": files, "readers": readers,
           "schedule": cm.gen_schedule(rng, len(readers), nsteps + 4),
@@ -171,8 +214,9 @@ def generate(seed, tier):
 
 
 # ---------------------------------------------------------------------------------- expect
-def expected_trees(f):
-    return views.read_view(f["tb"], f["fmt"], f["codec"], f["opts"], f.get("kw", {}))
+def expected_trees(f, opts=None):
+    return views.read_view(f["tb"], f["fmt"], f["codec"], f["opts"] if opts is None else opts,
+                           f.get("kw", {}))
 
 
 def compare(exp, got, fmt, codec, opts):
@@ -199,7 +243,8 @@ def build_spec(sc):
     for j, r in enumerate(sc["readers"]):
         f = sc["files"][r["file"]]
         sessions.append({"id": "r%d" % j, "ops": [
-            ["reader", "r", f["fmt"], f["path"], f.get("enc_arg", f["enc"]), f["opts"]],
+            ["reader", "r", f["fmt"], f["path"], f.get("enc_arg", f["enc"]),
+             r.get("opts", f["opts"])],
             ["loop", "r", "t", []]]})
     return {"files": files, "sessions": sessions, "schedule": sc.get("schedule", []),
             "io_seed": sc.get("io_seed", 0), "short_reads": sc.get("short_reads", True)}
@@ -207,7 +252,7 @@ def build_spec(sc):
 
 def execute(sc, sim):
     st = cm.Stats()
-    st.declare("long_file_crossing_buffer_boundaries", "file_with_2plus_sentences", "two_readers_same_format_interleaved",
+    st.declare("second_reader_of_a_file_with_other_options", "long_file_crossing_buffer_boundaries", "file_with_2plus_sentences", "two_readers_same_format_interleaved",
                "gzip_source_opened", "utf16_source", "multibyte_char_split_by_short_read",
                "node_with_2plus_gaps", "unary_root", "gf_split_used", "replace_parens_used",
                "emptypos_token", "damage_inside_group", "damage_between_groups",
@@ -227,7 +272,9 @@ def execute(sc, sim):
         if f.get("damage"):
             viols.extend(judge_damaged(f, recs, st))
             continue
-        viols.extend(judge_clean(f, recs, st))
+        if "opts" in r:
+            st.probe("second_reader_of_a_file_with_other_options")
+        viols.extend(judge_clean(f, recs, st, r.get("opts")))
     shape = (sc["mode"], tuple(sorted((f["fmt"], f["codec"], "+".join(sorted(f["opts"])), f["enc"],
                                        f["gz"], model.shape_class(f["tb"]),
                                        str((f.get("damage") or {}).get("how")))
@@ -243,10 +290,10 @@ def execute(sc, sim):
     return {"violations": viols, "stats": st.done(repr(shape), nontrivial, sample)}
 
 
-def judge_clean(f, recs, st):
-    fmt, codec, opts = f["fmt"], f["codec"], f["opts"]
+def judge_clean(f, recs, st, ropts=None):
+    fmt, codec, opts = f["fmt"], f["codec"], (f["opts"] if ropts is None else ropts)
     osig = optsig(opts)
-    exp = expected_trees(f)
+    exp = expected_trees(f, opts)
     viols = []
     if len(exp) >= 2:
         st.probe("file_with_2plus_sentences")
